@@ -599,6 +599,88 @@ def r6(db, rep):
     rep.floor("R6", "label-producing calls", n, 50)
 
 
+def r7(db, rep):
+    rep.rule("R7", "no operand of a deallocated register is emitted: a RegisterOperand obtained from r.variable()/index() before "
+                   "register_allocator.dealloc(r) is not emitted after a later call that may allocate a register (the "
+                   "allocator would hand the same slot to someone else)")
+    n = 0
+    # functions that may allocate a register (call-graph closure over the bytecompiler)
+    edges = {}
+    for g in db.fns.values():
+        if g.id.startswith("boa_engine::bytecompiler"):
+            outs = set(callee(t) for _, t in g.calls(reachable_only=False) if callee(t))
+            for b_ in range(len(g.blocks)):
+                for st in g.blocks[b_]["s"]:
+                    if st["r"].get("k") == "agg" and st["r"].get("ak") == "closure":
+                        outs.add(st["r"]["def"])
+            edges[g.id] = outs
+    allocators = {g.id for g in db.fns.values() if cname(g.id) in ("RegisterAllocator::alloc", "RegisterAllocator::alloc_persistent")}
+    changed = True
+    while changed:
+        changed = False
+        for gid, outs in edges.items():
+            if gid not in allocators and outs & allocators:
+                allocators.add(gid)
+                changed = True
+    rep.analysed["R7.functions that may allocate a register"] = len(allocators)
+    for f in db.fns.values():
+        if not f.id.startswith("boa_engine::bytecompiler") or not f.mentions("RegisterAllocator::dealloc"):
+            continue
+        name = cname(f.id)
+        deallocs = [(b, t) for b, t in f.calls() if cn(t) == "RegisterAllocator::dealloc" and len(t["args"]) >= 2]
+        if not deallocs:
+            continue
+        # operand producers: Register::variable / index calls, keyed by the register local they read
+        prods = []
+        for b, t in f.calls():
+            if cn(t) in ("Register::variable", "Register::index") and t["args"] and len(t["dest"]) == 1:
+                l = op_local(t["args"][0])
+                if l is None:
+                    continue
+                src = set()
+                roots(f, l, _seen=src)
+                prods.append((b, t["dest"][0], src))
+        k = -1
+        for db_, dt in deallocs:
+            rl = op_local(dt["args"][1])
+            if rl is None:
+                continue
+            regs = set()
+            roots(f, rl, _seen=regs)
+            regs = {x for x in regs if f.locals[x] == REGTY}
+            after = f.reach_from(f.succs(db_))
+            for vb, dest, src in prods:
+                if not (src & regs):
+                    continue
+                T, _, _ = taint(f, dest)
+                for cb, ct in f.calls():
+                    if cb == db_ or cb not in after or not arg_hits(ct, T):
+                        continue
+                    if cn(ct) in ("Register::variable", "Register::index"):
+                        continue
+                    # the operand must have been computed before the dealloc on this path (not recomputed after it)
+                    if vb in after and f.path_avoiding(f.succs(db_), {vb}, lambda x, cb=cb: x == cb) is None:
+                        continue
+                    # and the producer must be able to reach the dealloc (it really was computed before)
+                    if db_ not in f.reach_from(f.succs(vb)) and vb != db_:
+                        continue
+                    # harmless unless a register can be allocated in between (the slot is only then reused)
+                    between = [ab for ab, at in f.calls() if ab != cb and ab != db_ and callee(at) in allocators
+                               and ab in after and cb in f.reach_from(f.succs(ab))]
+                    if not between:
+                        continue
+                    k += 1
+                    n += 1
+                    rep.ob("R7", f"{name}:use-after-dealloc:{k}", False,
+                           f"{name}: {cn(ct)} at {f.loc(cb)} emits the operand of a register that was deallocated at "
+                           f"{f.loc(db_)} — the slot may already hold another value", loc=f.loc(cb))
+    rep.analysed["R7.violations"] = n
+    cnt = sum(1 for f in db.fns.values() if f.id.startswith("boa_engine::bytecompiler") and f.mentions("RegisterAllocator::dealloc"))
+    rep.floor("R7", "functions deallocating registers", cnt, 40)
+    if n == 0:
+        rep.ob("R7", "no-operand-use-after-dealloc", True)
+
+
 def run(db, rep, tier):
     r1(db, rep)
     r2(db, rep)
@@ -606,6 +688,7 @@ def run(db, rep, tier):
     r4(db, rep)
     r5(db, rep)
     r6(db, rep)
+    r7(db, rep)
     rep.assumptions += [
         "panicking paths (unwind edges, js_expect/expect failures) are outside these rules (they are C02's concern)",
     ]
